@@ -26,6 +26,7 @@ def run(cmd, env=None, cwd=None, timeout=3600):
 def main():
     src, idx, sid, prop, checks = sys.argv[1:6]
     do_tests = "--tests" in sys.argv
+    tier = "thorough" if "--thorough" in sys.argv else "quick"
     checks = [c for c in checks.split(",") if c]
     patch = os.path.join(src, f"mutation_{idx}.diff")
     demo = os.path.join(src, f"demo_{idx}.py")
@@ -61,10 +62,10 @@ def main():
             cenv = dict(os.environ, VERIF_REPO=wt, VERIF_EVIDENCE_DIR=os.path.join(tmp, "ev"),
                         VERIF_REPLAY_DIR=os.path.join(tmp, "rp"))
             cenv.pop("NESSAI_SIM_BOOT", None)
-            rc, out, err, tc = run([os.path.join(VERIF, "bin", "check"), c, "--tier", "quick"], env=cenv, timeout=3600)
+            rc, out, err, tc = run([os.path.join(VERIF, "bin", "check"), c, "--tier", tier], env=cenv, timeout=3600)
             lines = [ln for ln in out.splitlines() if ln.startswith("VIOLATION") or ln.strip().startswith("oracle=")
                      or ln.startswith("HARNESS")]
-            results[c] = {"exit": rc, "caught": rc == 1, "seconds": round(tc, 1),
+            results[c] = {"exit": rc, "caught": rc == 1, "tier": tier, "seconds": round(tc, 1),
                           "evidence": [ln.strip()[:300] for ln in lines[:6]]}
         if tests is not None:
             out, _ = tests.communicate(timeout=3600)
@@ -76,11 +77,20 @@ def main():
                     os.unlink(os.path.join(wt, f))
                 except OSError:
                     pass
+        prev = {}
+        try:
+            with open(os.path.join(VERIF, "seeded", sid, "meta.json")) as f:
+                prev = json.load(f).get("checks_history", {})
+        except Exception:
+            pass
+        for c, v in results.items():
+            prev.setdefault(c, []).append(v)
+        meta["checks_history"] = prev
         meta["checks_run"] = results
-        meta["caught_by"] = [c for c, v in results.items() if v["caught"]]
+        meta["caught_by"] = sorted({c for c, hist in prev.items() if hist and hist[-1]["caught"]})
         meta["what_ran"] = ("demo on clean scratch worktree and with the change applied"
                             + ("; full unit-test suite with the change" if do_tests else "")
-                            + "; quick tier of " + ", ".join(checks) + " with VERIF_REPO=<scratch worktree>")
+                            + f"; {tier} tier of " + ", ".join(checks) + " with VERIF_REPO=<scratch worktree>")
         dst = os.path.join(VERIF, "seeded", sid)
         os.makedirs(dst, exist_ok=True)
         shutil.copy(patch, os.path.join(dst, "patch.diff"))
